@@ -56,6 +56,8 @@ def has_collapsing_member(api, t, v):
 
 
 def task(item):
+    if item[0] == 'namecase':
+        return rtbase.name_case_task(['roundtrip'])
     pos, i = item
     u = rtbase.universe(TIER[0])
     t = u.ir_type(pos, i)
@@ -131,7 +133,7 @@ def run(tier, seed):
     except rtbase.UniverseError as e:
         rtbase.universe_failure(r, PROP, e)
         return r.finish('packed universe could not be built')
-    items = rtbase.items(tier)
+    items = rtbase.items(tier) + [('namecase', 0)]
     r.bounds.update({'shapes': len(u.shapes), 'positions': list(rtbase.POSITIONS), 'nesting': 2 if tier == 'quick' else 3,
                      'modes': ['strict/obj', 'strict/str', 'lenient/obj', 'lenient/str']})
     for it in items[:1] + items[len(items) // 3:len(items) // 3 + 2]:
